@@ -241,6 +241,9 @@ func (m *Model) Depth(reg int) int {
 // NilOutput reports whether the identity is provided by an output that its
 // constructor always returns as nil (registered, but there is nothing to resolve).
 func (m *Model) NilOutput(id Ident) bool {
+	if id.T == TVoid {
+		return true // a named initializer: an empty struct, no instance
+	}
 	if o, ok := m.Owner(id); ok {
 		r := m.Regs[o.Reg]
 		return o.Out < len(r.Outs) && r.Outs[o.Out].Nil
